@@ -30,6 +30,16 @@ namespace bloch::compiler {
     using support::ErrorCategory;
     namespace fs = std::filesystem;
 
+    // The working directory is the last root tried. When it cannot be determined (it was
+    // removed under the process) there is simply no such root.
+    static void addWorkingDirectory(std::vector<fs::path>& bases) {
+        std::error_code ec;
+        fs::path cwd = fs::current_path(ec);
+        if (!ec)
+            bases.push_back(cwd);
+    }
+
+
     ModuleLoader::ModuleLoader(std::vector<std::string> searchPaths)
         : m_searchPaths(std::move(searchPaths)) {}
 
@@ -125,11 +135,11 @@ namespace bloch::compiler {
         if (preferSearchPaths) {
             for (const auto& p : m_searchPaths) bases.emplace_back(p);
             bases.emplace_back(fromDir);
-            bases.push_back(fs::current_path());
+            addWorkingDirectory(bases);
         } else {
             bases.emplace_back(fromDir);
             for (const auto& p : m_searchPaths) bases.emplace_back(p);
-            bases.push_back(fs::current_path());
+            addWorkingDirectory(bases);
         }
 
         for (const auto& base : bases) {
@@ -154,11 +164,11 @@ namespace bloch::compiler {
         if (preferSearchPaths) {
             for (const auto& p : m_searchPaths) bases.emplace_back(p);
             bases.emplace_back(fromDir);
-            bases.push_back(fs::current_path());
+            addWorkingDirectory(bases);
         } else {
             bases.emplace_back(fromDir);
             for (const auto& p : m_searchPaths) bases.emplace_back(p);
-            bases.push_back(fs::current_path());
+            addWorkingDirectory(bases);
         }
 
         for (const auto& base : bases) {
